@@ -1,6 +1,9 @@
 package main
 
 import (
+	"context"
+	"sync"
+	jobSource "github.com/mimiro-io/datahub/internal/jobs/source"
 	"encoding/base64"
 	"time"
 	"fmt"
@@ -224,4 +227,81 @@ func init() {
 	register("c11end", genC11End)
 	registerKind("c11.end", runC11End)
 	childKinds["c11.end"] = true
+}
+
+// c11.kill (child process): a run that is killed while it is inside a source call that ignores the cancellation and comes back
+// only `holdMs` later. Until it is back the job id stays taken (a new request for the same id is skipped: never two runs of one
+// id inside the pipeline at once), and when it is back the pools hold exactly what they held before — no ticket twice.
+// in {"holdMs","killAtMs","againAtMs":[…]}  out {"maxInside","ticketsBack","runningAfter"}
+type stubbornSource struct {
+	hold   time.Duration
+	mu     sync.Mutex
+	inside int
+	max    int
+}
+
+func (s *stubbornSource) GetConfig() map[string]interface{} {
+	return map[string]interface{}{"Type": "VerifStubbornSource"}
+}
+func (s *stubbornSource) StartFullSync() {}
+func (s *stubbornSource) EndFullSync()   {}
+func (s *stubbornSource) ReadEntities(ctx context.Context, since jobSource.DatasetContinuation, batchSize int,
+	processEntities func([]*server.Entity, jobSource.DatasetContinuation) error) error {
+	s.mu.Lock()
+	s.inside++
+	if s.inside > s.max {
+		s.max = s.inside
+	}
+	s.mu.Unlock()
+	time.Sleep(s.hold) // a source call that does not look at ctx (an HTTP source waiting for a slow server)
+	s.mu.Lock()
+	s.inside--
+	s.mu.Unlock()
+	return processEntities([]*server.Entity{}, &jobSource.StringDatasetContinuation{Token: ""})
+}
+
+func runC11Kill(c *Ctx, in M) (out interface{}) {
+	h := NewHub(c, true)
+	defer h.Destroy()
+	f0, i0, _ := jobs.VerifRaffleState(h.Runner)
+	src := &stubbornSource{hold: time.Duration(geti(in, "holdMs")) * time.Millisecond}
+	jobID := "c11kill"
+	vj, err := jobs.NewVerifJob(h.Runner, jobID, src, nil, &jobs.VerifSink{}, 10, false, false, 0, false, 0, 0, false)
+	if err != nil {
+		return M{"err": err.Error()}
+	}
+	start := time.Now()
+	at := func(ms int) {
+		if d := time.Duration(ms)*time.Millisecond - time.Since(start); d > 0 {
+			time.Sleep(d)
+		}
+	}
+	var wg sync.WaitGroup
+	wg.Add(1)
+	go func() { defer wg.Done(); vj.Run() }()
+	at(geti(in, "killAtMs"))
+	jobs.VerifKillJob(h.Runner, jobID)
+	for _, t := range getl(in, "againAtMs") {
+		at(int(t.(float64)))
+		wg.Add(1)
+		go func() { defer wg.Done(); vj.Run() }()
+	}
+	wg.Wait()
+	time.Sleep(200 * time.Millisecond)
+	f1, i1, running := jobs.VerifRaffleState(h.Runner)
+	src.mu.Lock()
+	defer src.mu.Unlock()
+	return M{"maxInside": src.max, "ticketsBack": f1 == f0 && i1 == i0, "runningAfter": len(running)}
+}
+
+func init() {
+	register("c11kill", func(c *Ctx) {
+		c.DoChild("c11.kill", M{"holdMs": 6500, "killAtMs": 300, "againAtMs": []int{1000, 5600, 6100}}, 60*time.Second)
+		if c.Thorough {
+			c.DoChild("c11.kill", M{"holdMs": 11500, "killAtMs": 100, "againAtMs": []int{5300, 10700}}, 60*time.Second)
+			c.DoChild("c11.kill", M{"holdMs": 2000, "killAtMs": 1000, "againAtMs": []int{1500}}, 60*time.Second)
+		}
+	})
+	registerKind("c11.kill", runC11Kill)
+	childKinds["c11.kill"] = true
 }
